@@ -18,7 +18,7 @@ def configs(tier):
 ANCHORS = ["broker.py:Broker.transact", "broker.py:Broker.marking_to_market",
            "broker.py:Broker.holdings_values", "broker.py:Broker.net_liquidation_value",
            "broker.py:Broker.holdings_weights", "exchange.py:LimitOrderBook.liq_price"]
-EXPECT_REACH = ["trade", "quote", "mtm", "sequence"]
+EXPECT_REACH = ["trade", "quote", "mtm", "sequence", "weights"]
 ASSUMPTIONS = _A
 BOUNDS = {
     "quick": "one traded contract (user-defined spot-like or margined spec with symbolic multiplier "
